@@ -673,6 +673,8 @@ class VF:
                 return T.app('idiv', a, b)
             return self.arith(op, a, b)
         if op in ('Lt', 'Le', 'Gt', 'Ge', 'Eq', 'Ne'):
+            if is_int_ty(str(n['l'].get('ty', '')).lstrip('&')) and is_int_ty(str(n['r'].get('ty', '')).lstrip('&')):
+                return T.icmp(op.lower(), a, b)         # integers: `>=` is the negation of `<`
             return T.cmp(op.lower(), a, b)
         if op == 'BitOr' and n['ty'] == 'bool':
             return T.lor(a, b)
@@ -1138,9 +1140,10 @@ class VF:
             for k2 in list(ls.next):
                 if isinstance(ls.next[k2], T.Tm) and k2 is not k:
                     ls.next[k2] = T.subst(ls.next[k2], m)
+            cont = T.subst(T.cmp('lt', lh, N), m)       # holds on every iteration of the counted loop: not a condition of the body
             for e in ls.events:
                 e.args = [T.subst(a, m) if isinstance(a, T.Tm) else a for a in e.args]
-                e.pc = tuple(T.subst(c, m) for c in e.pc)
+                e.pc = tuple(c2 for c2 in (T.subst(c, m) for c in e.pc) if c2 is not cont)
             ls.kind, ls.var, ls.n, ls.elem, ls.seq_desc = 'for', it, T.sub(N, c0), T.add(c0, it), 'range'
             ls.counter_key = k
             ls.exits, ls.exit_states = [], []
